@@ -149,6 +149,11 @@ Inductive bcall :=
 | BAdd (ty role : N)                     (* NewFeatureLocal(NextFeatureId(), ty, role); AddFeature *)
 | BGet (ty role : N).                    (* GetOrAddFeature(ty, role) *)
 
+(* what a During overlaps with the stalled notification write *)
+Inductive dinner :=
+| IRead (p : N)                          (* peer p reads the detailed discovery data *)
+| IReconnect (p : N).                    (* peer p disconnects (RemoveRemoteDeviceConnection) and connects again *)
+
 Inductive op :=
 | NewEntity (e : positive) (ty : N)      (* NewEntityLocal for address e, unless that object exists *)
 | AddEntity (e : positive)               (* DeviceLocal.AddEntity, unless already a member *)
@@ -165,7 +170,14 @@ Inductive op :=
 | Read (p : N)                           (* peer p reads nodeManagementDetailedDiscoveryData, uninterrupted *)
 | ReadBegin (t p : N)                    (* thread t handles a read of peer p: the entity list is taken; parked at the hook *)
 | ReadEnd (t : N)                        (* thread t continues after the hook: the reply is built from that list and sent *)
-| Burst (e : N) (calls : list bcall).    (* overlapping calls on entity object e, one goroutine each, released together *)
+| Burst (e : N) (calls : list bcall)     (* overlapping calls on entity object e, one goroutine each, released together *)
+| Reconnect (p : N)                      (* peer p's connection closes (RemoveRemoteDeviceConnection: its subscriptions go) and
+                                            is set up again, announcing the same client features *)
+| During (add : bool) (e : positive) (q : N) (i : dinner).
+      (* AddEntity e / RemoveEntity e whose first notification write to peer q is stalled inside the connection
+         writer; while it is stalled [i] runs to completion; then the write is released.  The notification is
+         sent outside every lock and from data fixed before the first write (the rendered entity, the list of
+         subscription entries), so this is AddEntity / RemoveEntity followed by [i]; q is schedule only *)
 
 Inductive obs :=
 | Created | Exists | NoEntity | AlreadyMember
@@ -185,7 +197,9 @@ Inductive obs :=
 | OkDone | NoFeature
 | Parked                                 (* the read handler holds its entity list and is parked at the hook *)
 | ReadPanicked                           (* the read handler panicked (nil entity in its list); no reply was sent *)
-| BadBurst.                              (* two calls of the burst name one (type, role): refused *)
+| BadBurst                               (* two calls of the burst name one (type, role): refused *)
+| Len (n : N)                            (* During: the next n observations are the entity operation's, the rest the overlapped one's *)
+| Blocked.                               (* During: the overlapped operation returned only after the stalled write was released *)
 
 Definition render_feat (e : N) (f : feat) (res : option feat) : list obs :=
   let '(rid, rty, rrole) := match res with
@@ -415,6 +429,17 @@ Definition step_base (recheck inplace : bool) (s : st) (o : op) : st * list obs 
           else (s1, render_reply_of s1 p l)
       end
   | Burst _ _ => (s, [BadBurst])
+  | Reconnect p =>
+      ({| objs := objs s; ctrs := ctrs s; members := members s;
+          subs := filter (fun x : N * N => negb (N.eqb (fst x) p)) (subs s); thr := thr s; rds := rds s |}, [OkDone])
+  | During _ _ _ _ => (s, [BadBurst])
+  end.
+
+Definition ent_op (add : bool) (e : positive) : op := if add then AddEntity e else RemoveEntity e.
+Definition inner_op (i : dinner) : op :=
+  match i with
+  | IRead p => Read p
+  | IReconnect p => Reconnect p
   end.
 
 (* the calls of a burst one after the other *)
@@ -436,6 +461,10 @@ Definition step_gen (recheck inplace : bool) (s : st) (o : op) : st * list obs :
            | Some _ => run_calls recheck inplace s (map (bcall_op e) calls)
            end
       else (s, [BadBurst])
+  | During add e q i =>
+      let '(s1, o1) := step_base recheck inplace s (ent_op add e) in
+      let '(s2, o2) := step_base recheck inplace s1 (inner_op i) in
+      (s2, Len (N.of_nat (length o1)) :: o1 ++ o2)
   | _ => step_base recheck inplace s o
   end.
 
@@ -459,10 +488,11 @@ Definition run_inplace := run_gen true true.
 (* ---- wire encoding ----
    op:  0 e ty | 1 e | 2 e | 3 e ty role desc (fn r w ps)* | 4 e fid fn r w ps | 5 e | 6 e ty role |
         7 t e ty role | 8 t | 9 p c | 10 p c | 11 p | 12 t p | 13 t |
-        14 e (kind ty role)*   kind 0 BNext (ty role ignored) 1 BAdd 2 BGet
+        14 e (kind ty role)*   kind 0 BNext (ty role ignored) 1 BAdd 2 BGet |
+        15 add e q kind p      kind 0 IRead 1 IReconnect | 16 p
    obs: 0 Created 1 Exists 2 NoEntity 3 AlreadyMember | 4 id | 5 id new | 6 Miss 7 NoThread 8 BusyT | 9 ok |
         10 p c ok | 11 p ok | 12 e ty lsc | 13 e id ty role desc rid rty rrole | 14 fn r rp w wp | 15 REnd |
-        16 p | 17 OkDone 18 NoFeature | 19 Parked 20 ReadPanicked | 21 BadBurst *)
+        16 p | 17 OkDone 18 NoFeature | 19 Parked 20 ReadPanicked | 21 BadBurst | 22 n Len | 23 Blocked *)
 Fixpoint parse_fns (l : list Z) : option (list fnspec) :=
   match l with
   | [] => Some []
@@ -509,6 +539,11 @@ Definition parse_op (l : list Z) : option op :=
   | [11; p] => Some (Read (Nz p))
   | [12; t; p] => Some (ReadBegin (Nz t) (Nz p))
   | [13; t] => Some (ReadEnd (Nz t))
+  | [15; add; Zpos e; q; k; p] =>
+      if Z.eqb k 0 then Some (During (bZ add) e (Nz q) (IRead (Nz p)))
+      else if Z.eqb k 1 then Some (During (bZ add) e (Nz q) (IReconnect (Nz p)))
+      else None
+  | [16; p] => Some (Reconnect (Nz p))
   | 14 :: e :: calls =>
       match parse_calls calls with
       | Some x => Some (Burst (Nz e) x)
@@ -541,6 +576,8 @@ Definition print_obs (o : obs) : list Z :=
   | Parked => [19]
   | ReadPanicked => [20]
   | BadBurst => [21]
+  | Len n => [22; Zn n]
+  | Blocked => [23]
   end.
 
 Definition parse_obs (l : list Z) : option obs :=
@@ -568,5 +605,7 @@ Definition parse_obs (l : list Z) : option obs :=
   | [19] => Some Parked
   | [20] => Some ReadPanicked
   | [21] => Some BadBurst
+  | [22; n] => Some (Len (Nz n))
+  | [23] => Some Blocked
   | _ => None
   end.
